@@ -446,7 +446,8 @@ func c17aBootSteps(now time.Time) []c17aBootStep {
 		add("i", "POST", "/otlp/v1/traces", c17aPB, c17aOtlpTraceBody(ts), "")
 		add("i", "POST", "/otlp/v1/logs", c17aPB, c17aOtlpLogBody(ts), "")
 	}
-	// the indexes behind the trace routes exist (the OTLP route alone does not make the index known to searches)
+	// the indexes behind the trace routes exist before the first flush (the OTLP route does not register the index `traces`
+	// itself; the flush of its first block does: writer.AppendWipToSegfile — suite fx_c12 watches that)
 	tid2 := "c2c2c2c2c2c2c2c2c2c2c2c2c2c2c2c2"
 	add("i", "POST", "/elastic/_bulk", c17aJ, c17aBulkOf("traces", c17aSpanDoc(nowS*1e9, tid2, "a1a1a1a1a1a1a1a1", "", "c17svc", "c17op"), c17aSpanDoc(nowS*1e9+1e6, tid2, "a2a2a2a2a2a2a2a2", "a1a1a1a1a1a1a1a1", "c17db", "c17query")), "")
 	add("i", "POST", "/elastic/_bulk", c17aJ, c17aBulkOf("service-dependency", c17aDepDoc), "")
